@@ -34,6 +34,9 @@ type Case struct {
 	// Repeat: run up to this many times until a failure or panic shows (Go's
 	// map iteration order is random; the executor explores one fixed order).
 	Repeat int `json:"repeat"`
+	// Lenient: inputs beyond the recorded ones take their zero value (used when
+	// the executor could not finish a path and only its prefix is known).
+	Lenient bool `json:"lenient"`
 }
 
 type Result struct {
@@ -66,6 +69,16 @@ func next(tag, sort string) string {
 	}
 	if pos >= len(cur.Nondets) && res != nil && len(res.Failures) > 0 {
 		panic(replayDone{})
+	}
+	if pos >= len(cur.Nondets) && cur.Lenient {
+		pos++
+		switch sort {
+		case "S":
+			return ""
+		case "B":
+			return "false"
+		}
+		return "0"
 	}
 	if pos >= len(cur.Nondets) {
 		panic(diverged{fmt.Sprintf("nondet #%d (%s %q) beyond the recorded %d", pos, sort, tag, len(cur.Nondets))})
@@ -194,7 +207,7 @@ func runCase(c *Case, f func()) *Result {
 				}
 			}()
 			f()
-			if pos != len(c.Nondets) && r.Diverged == "" {
+			if pos != len(c.Nondets) && r.Diverged == "" && !c.Lenient {
 				r.Diverged = fmt.Sprintf("harness consumed %d of %d recorded nondets", pos, len(c.Nondets))
 			}
 		}()
